@@ -524,11 +524,13 @@ def divide_outputs(
                 raise
             i += 1
 
+        # Closing can fail too (a reader of one of the outputs, e.g. its saver,
+        # died on the last message): the other outputs must not be left open.
+        for m in mbs_to_kill:
+            m.close()
+
     except Exception as e:
         for m in mbs_to_kill:
             m.kill_from_exception(e, reraise=False)
         if not isinstance(e, MailboxKilled):
             raise
-    else:
-        for m in mbs_to_kill:
-            m.close()
